@@ -173,16 +173,19 @@ class MemoryPoolList {
     auto pool = &pools_[count_++];
     SlotCount poolCapacity = ARDUINOJSON_POOL_CAPACITY;
     if (count_ == maxPools)  // last pool is smaller because of NULL_SLOT
-      poolCapacity--;
+      poolCapacity = SlotCount(NULL_SLOT - SlotId(maxPools - 1) *
+                                               ARDUINOJSON_POOL_CAPACITY);
     pool->create(poolCapacity, allocator);
     return pool;
   }
 
   bool increaseCapacity(Allocator* allocator) {
-    if (capacity_ == maxPools)
+    if (capacity_ >= maxPools)
       return false;
     void* newPools;
     auto newCapacity = PoolCount(capacity_ * 2);
+    if (newCapacity > maxPools || newCapacity < capacity_)
+      newCapacity = maxPools;  // never more pools than slot ids allow
 
     if (pools_ == preallocatedPools_) {
       newPools = allocator->allocate(newCapacity * sizeof(Pool));
@@ -207,8 +210,10 @@ class MemoryPoolList {
   SlotId freeList_ = NULL_SLOT;
 
  public:
+  // number of pools needed to hold NULL_SLOT slots (ids 0..NULL_SLOT-1)
   static const PoolCount maxPools =
-      PoolCount(NULL_SLOT / ARDUINOJSON_POOL_CAPACITY + 1);
+      PoolCount(NULL_SLOT / ARDUINOJSON_POOL_CAPACITY +
+                (NULL_SLOT % ARDUINOJSON_POOL_CAPACITY != 0));
 };
 
 ARDUINOJSON_END_PRIVATE_NAMESPACE
